@@ -129,11 +129,15 @@ def _one(case):
         if len(set(keys)) != len(keys):
           out['ties'] = True
           continue
-      sc, c = t_scale(case['seed'] % 7 - 3)
+      sc, c = t_scale(case['seed'] % 25 - 12)
       variants = [('shuffle+shift', t_shuffle_shift(case['seed']), None), ('rename', t_rename(case['seed']), None),
                   ('scale', sc, c)]
       if not case.get('int_ids'):
         variants.append(('int-ids', t_int_ids, None))
+      if case['par_final'].get('budget_range'):
+        # budgets of a few cents: any absolute tolerance or rounding in the budget tests would show
+        f10, c10 = t_scale(-10)
+        variants.append(('scale 2^-10 with a budget range', f10, c10))
       for name, tr, scale in variants:
         other = designs_of(case, which, tr)
         out['pairs'] += 1
@@ -148,7 +152,7 @@ def _one(case):
 
 def run(tier):
   ck = Check('C12', tier)
-  ck.prove('props/C12.v', gen_targets=searchfam.GEN_TARGETS)
+  ck.prove('props/C12.v', gen_targets=searchfam.GEN_TARGETS_EXH)
   n = 100 if tier == 'quick' else 1500
   cases = []
   for i in range(n):
@@ -175,7 +179,7 @@ def run(tier):
   ck.cov['rule'] = ('generated search cases (<= 5 geos; in one third some (geo, date) cells are reported in two rows); for both searches the designs on the original input are compared with '
                     'the designs on four transformed inputs: rows shuffled + all dates shifted + eligibility rows shuffled; geos '
                     'renamed injectively (eligibility alike, results mapped back); integer instead of string IDs; responses and '
-                    'budget range multiplied by 2^k, k in -3..3 (groups, tests, correlations bit-equal, required impact scaled '
+                    'budget range multiplied by 2^k, k in -12..12 (groups, tests, correlations bit-equal, required impact scaled '
                     'exactly). non-trivial: at least one pair compared')
   ck.cov['metamorphic_pairs_compared'] = pairs
   ck.cov['skipped'] = skipped
